@@ -193,6 +193,14 @@ def parseDesc (toks : List String) : Option Desc := Id.run do
   if let some c := cur then subs := subs ++ [c]
   return some { d with subs := subs }
 
+/-- is entry `k` (global count) the first entry of its subsection? -/
+def firstOfSub (subs : List XrefSpec.TSub) (k : Nat) : Bool := Id.run do
+  let mut n := 0
+  for t in subs do
+    if k == n && !t.ents.isEmpty then return true
+    n := n + t.ents.length
+  return false
+
 /-- the table's bytes with entry `k` (global count) replaced by `chunk`; returns the bytes before
     the chunk and after it -/
 def encMutated (subs : List XrefSpec.TSub) (k : Nat) (chunk : Bytes) : Option (Bytes × Bytes) := Id.run do
@@ -238,7 +246,11 @@ def judgeTab (hex pos : String) (toks : List String) (impl : String) : String :=
         | some (pre, post) =>
           let bytes := if d.cut then pre ++ chunk else pre ++ chunk ++ post ++ d.rest
           if bytes != s then "skip" else
-          match XrefSpec.entryAt bytes pre.length with
+          -- white space at the start of a subsection's first entry belongs to the header line's
+          -- trailing white space (and a `%` there opens a comment): the entry then starts later
+          let lead := if firstOfSub d.subs k then (chunk.takeWhile XrefSpec.isWs).length else 0
+          if firstOfSub d.subs k && (bytes.drop (pre.length + lead)).head? == some 37 then "skip" else
+          match XrefSpec.entryAt bytes (pre.length + lead) with
           | some _ => "skip"        -- the mutation produced another legal entry
           | none =>
             match iw with
